@@ -196,6 +196,7 @@ def run(ctx):
         ctx.violation("the normaliser took the process down on %r (%s)" % (bad, err[-200:]), {"domain": "url", "ops": [json.loads(lines[min(len(out), len(lines) - 1)])]})
     else:
         for l, o in zip(lines, out):
+            ctx.count("normaliser:" + ("accepted" if o.startswith("ok ") else "rejected"))
             if o.startswith("panic") or o.startswith("crash"):
                 ctx.violation("normaliser: %s on %s" % (o[:100], l[:200]), {"domain": "url", "ops": [json.loads(l)]}); break
     ctx.assumptions += ["what a parser does on a given input (return, error, panic, spin) is outside the model: that no panic escapes and nothing spins "
